@@ -680,6 +680,11 @@ func classifyCrash(prop string, oc jobOutcome) (violation, bool) {
 	if !libFrame {
 		return violation{}, false
 	}
+	if crashBlame(oc.stderr, m) == "harness" {
+		// the goroutine that died was running harness code (innermost frame outside
+		// runtime and standard library): not the library's panic, whatever called it
+		return violation{}, false
+	}
 	key := "crash:" + normCrash(m, oc.stderr)
 	rp, _ := json.Marshal(map[string]interface{}{"scenario": json.RawMessage(nonEmptyJSON(oc.crashSc)), "job": oc.job})
 	w := oc.stderr
@@ -687,6 +692,38 @@ func classifyCrash(prop string, oc jobOutcome) (violation, bool) {
 		w = w[:20000]
 	}
 	return violation{Msg: "worker process died: " + m, Key: key, Replay: rp, Witness: w, Part: oc.job.Part, Idx: oc.crashIdx, Race: oc.job.Race, Procs: oc.job.Procs}, true
+}
+
+// crashBlame looks at the stack of the goroutine that died (the first one
+// printed after the crash line) and says whose code was innermost, skipping
+// runtime and standard-library frames: "library", "harness" or "" (cannot tell,
+// e.g. "all goroutines are asleep").
+func crashBlame(stderr, head string) string {
+	i := strings.Index(stderr, head)
+	if i < 0 {
+		return ""
+	}
+	rest := stderr[i+len(head):]
+	j := strings.Index(rest, "\ngoroutine ")
+	if j < 0 {
+		return ""
+	}
+	lines := strings.Split(rest[j+1:], "\n")
+	for _, l := range lines[1:] {
+		if l == "" {
+			break // end of the first goroutine's stack
+		}
+		if strings.HasPrefix(l, "\t") || strings.HasPrefix(l, "created by") {
+			continue
+		}
+		switch {
+		case strings.HasPrefix(l, "main.") || strings.Contains(l, "verif/harness"):
+			return "harness"
+		case strings.Contains(l, "github.com/vbauerster/mpb/v8"):
+			return "library"
+		}
+	}
+	return ""
 }
 
 func nonEmptyJSON(b []byte) []byte {
